@@ -56,6 +56,17 @@ func (e *G2) Unmarshal'''),
  ('M11 AggregatePubkeys skips the second key', G+'pubkey.go', '''	for i := 1; i < len(pubs); i++ {
 		pub.add(&pubs[i])''', '''	for i := 2; i < len(pubs); i++ {
 		pub.add(&pubs[i])'''),
+ ('M12 finalExponentiation forgets to conjugate y4', G+'bn256/optate.go', '''	y4 := (&gfP12{}).Mul(fu, fu2p)
+	y4.Conjugate(y4)
+''', '''	y4 := (&gfP12{}).Mul(fu, fu2p)
+'''),
+ ('M13 gfP6.Mul: tx adds v2 instead of subtracting it', G+'bn256/gfp6.go', '	tx.Sub(tx, v0).Add(tx, v1).Sub(tx, v2)', '	tx.Sub(tx, v0).Add(tx, v1).Add(tx, v2)'),
+ ('M14 miller skips the -Q2 correction line', G+'bn256/optate.go', '''	r2.Square(&minusQ2.y)
+	a, b, c, newR = lineFunctionAdd(r, minusQ2, bAffine, r2)
+	mulLine(ret, a, b, c)
+	r = newR
+''', '''	_ = minusQ2
+'''),
  ('H1 harmless: rename local bQ and swap two independent statements in VerifySig', G+'sig.go', '''	bQ := bn_curve.GetG2Base()
 	p1 := bn_curve.Pair(&sig.value, bQ)
 
